@@ -279,7 +279,26 @@ def check_rot3(o):
             if not L.close(_rodrigues(axis, ang), M[:3, :3], 1e-7):
                 bad.append(("reported 3-D axis/angle does not rebuild the rotation (sign included)",
                             {"axis": axis, "angle": ang, "rebuilt": _rodrigues(axis, ang), "want": M[:3, :3]}, None))
+        _stored_forms(M[:3, :3], bad)
     return bad
+
+
+def _stored_forms(M3, bad):
+    """a proper rotation matrix as it comes out of a file or a single-precision pipeline (float32, or rounded to 7 decimals) is a
+    proper rotation matrix: accepted, and its axis / angle rebuild it to that precision"""
+    from menpo.transform import Rotation
+
+    for tag, R in (("float32", M3.astype(np.float32)), ("rounded to 7 decimals", np.round(M3, 7))):
+        try:
+            np.random.seed(0)
+            rot = Rotation(R.copy())
+            axis, ang = rot.axis_and_angle_of_rotation()
+        except Exception as e:
+            bad.append(("a proper rotation matrix stored as %s is refused / fails (%s)" % (tag, type(e).__name__), {"msg": str(e)[:120]}, None))
+            return
+        if axis is None or not np.allclose(_rodrigues(np.asarray(axis, dtype=float), float(ang)), M3, rtol=0, atol=1e-5):
+            bad.append(("axis / angle of a rotation matrix stored as %s do not rebuild it" % tag, {"axis": axis, "angle": ang}, None))
+            return
 
 
 def check_quat(o):
@@ -312,6 +331,7 @@ def check_quat(o):
         elif abs(np.linalg.norm(axis) - 1) > 1e-9 or not L.close(_rodrigues(axis, ang), M[:3, :3], 1e-7):
             bad.append(("reported 3-D axis/angle does not rebuild the rotation (sign included)",
                         {"axis": axis, "angle": ang, "rebuilt": _rodrigues(axis, ang), "want": M[:3, :3]}, None))
+        _stored_forms(M[:3, :3], bad)
     return bad
 
 
